@@ -149,11 +149,15 @@ def run(chk, gate, status):
                 break
     for g in near_capacity_cases(chk):
         progs.append(g.prog()); kinds.append('near capacity')
-    rprogs = []
+    rprogs, gen_refused = [], []
     for i in range(nr):
         rng = random.Random(chk.seed * 100003 + 181000 + i)
-        rg = recipes.RecipeGen(rng, rng.randint(3, 8))
-        qs = C09.make_queries(rng, rg, chk.tier)[:20] + C15.make_queries(rng, rg, chk.tier)[:24]
+        try:
+            rg = recipes.RecipeGen(rng, rng.randint(3, 8))
+            qs = C09.make_queries(rng, rg, chk.tier)[:20] + C15.make_queries(rng, rg, chk.tier)[:24]
+        except Exception as e:  # noqa -- the adaptive generator runs the library: a valid call refused there must not hide what the scripts show
+            gen_refused.append(f"{type(e).__name__}: {e}"[:200])
+            continue
         rprogs.append(rg.prog(qs))
     job = {'progs': progs, 'recipes': rprogs, 'observers': True}
     # ---- separate processes
@@ -277,6 +281,8 @@ def run(chk, gate, status):
                               found_input=False)
     if errors:
         chk.violation('model evaluation failed: ' + errors[0][:300], {'relation': 'coq_eval C18'}, found_input=False)
+    if gen_refused and not nfail:
+        chk.violation('the recipe generator could not run the library on a valid call: ' + gen_refused[0], {'relation': 'recipes.RecipeGen (generation under the shipped configuration)', 'errors': gen_refused[:3]}, found_input=False)
     chk.assumptions += ["scripts use amounts >= micromoles / microlitres so that 10 decimals of a coarse storage unit (mol, L, daL) stay below the comparison tolerance",
                         "configurations the YAML loader rejects are out of scope"]
     return {'evaluations': (len(progs) + len(rprogs)) * len(configs), 'programs': len(progs) + len(rprogs), 'configurations': [list(c) for c in configs],
